@@ -26,6 +26,7 @@ def run(rep, prog, tier):
     r5(rep, prog)
     r6(rep, prog)
     r7(rep, prog)
+    r8(rep, prog)
 
 
 def r7(rep, prog):
@@ -56,6 +57,31 @@ def r7(rep, prog):
                       "`%s` can delete the lock path on a path where its own open_write did not succeed: a failed attempt to take the lock removes the lock file of the writer that holds it, "
                       "and the next attempt gets a second writer" % fid, site=site(b, bi))
     rep.floor(R, "Directory::delete call sites in the default locking module", n, 1)
+
+
+def r8(rep, prog):
+    """a lock file that was created has an owner on every exit"""
+    R = "C18-R8"
+    rep.rule(R, "a created lock file has an owner on every exit: in try_acquire_lock every path from the Ok continuation of Directory::open_write (the lock file now exists) to an exit — the Ok exit and the error exits, e.g. a failed flush — passes the construction of the DirectoryLockGuard (whose Drop removes the file) or an explicit Directory::delete; otherwise a failed attempt leaves a lock file that nobody owns and every later writer gets LockBusy although no writer exists")
+    fid = "tantivy::directory::directory::try_acquire_lock"
+    b = get_body(rep, prog, R, fid)
+    if b is None:
+        return
+    ow = family(prog, D + "open_write")
+    opens = calls_to(prog, b, ow)
+    if not rep.check(len(opens) == 1, R, "try_acquire_lock creates the lock file once", "1 open_write", "expected one open_write in try_acquire_lock, found %d" % len(opens), site=b.span):
+        return
+    evs, chk = ok_continuation_events(b, opens[0][0])
+    starts = []
+    for e in evs:
+        starts += [e.b] if e.kind == "enter" else list(b.succ(e.b))
+    owners = [Ev(bi, "stmt", i) for bi in b.normal_blocks() for i, st in enumerate(b.stmts(bi))
+              if st.get("r") == "agg" and st.get("adt") == "tantivy::directory::directory::DirectoryLockGuard"]
+    owners += [Ev(bi, "term") for bi, t in calls_to(prog, b, family(prog, D + "delete"))]
+    bad = must_pass(b, owners, exits="all", starts=tuple(starts)) if owners else [0]
+    rep.check(not bad, R, "after the lock file exists, every exit has passed the guard (or a delete)", "%d owner event(s)" % len(owners),
+              "try_acquire_lock can return (with an error) after the lock file was created without having built the DirectoryLockGuard and without deleting the file: the lock file stays behind, "
+              "no DirectoryLock owns it, and every later attempt to create a writer fails with LockBusy", site=site(b, bad[0]) if bad and bad[0] else b.span)
 
 
 def r6(rep, prog):
